@@ -254,7 +254,7 @@ func (c *FnCtx) setupSpec(st0 *State) {
 		}
 		if r.label != "" {
 			// a labelled precondition can be switched off for obligations that do not need it
-			c.assume(implies(c.act(r.label), t))
+			c.assumeNamed(r.label, t)
 		} else {
 			c.assume(t)
 		}
@@ -392,7 +392,7 @@ func (c *FnCtx) loopInvariants(li *loopInfo, st *State, cond Term, mode string) 
 					continue
 				}
 			}
-			c.assume(implies(c.act(bc.name), implies(cond, t)))
+			c.assumeNamed(bc.name, implies(cond, t))
 			continue
 		}
 		kind := "invariant-entry"
